@@ -42,7 +42,7 @@ inductive PubKey
 inductive Scheme
   | ecdsa (h : HashAlg)
   | pkcs1v15 (h : HashAlg)
-  | pss (h : HashAlg)          -- MGF1 with the same hash, salt length MAX_LENGTH (verification: any)
+  | pss (mgf h : HashAlg) (salt : String)  -- MGF1(mgf), salt length "max" | "auto" | "digest" | decimal
   | ed25519
   deriving DecidableEq, Repr, Inhabited
 
